@@ -41,12 +41,12 @@ RULE = (
 EXHAUSTIVE = {"quick": True, "thorough": True}
 EXHAUSTIVE_PART = "workload B: all failure points of each listed layout (quick 2 layouts, thorough 12); thorough: all restart points of each layout"
 TOLERANCES = {"recomputed_rel": 1e-9}
-FLOORS = {"quick": {"A.load-vs-model": 100, "A.listing": 15, "A.history": 30, "A.history-by-location": 15, "A.merge": 15, "A.split": 12, "A.split.first-listed-not-earliest-cycle": 2, "A.rewrite-refused": 15, "A.identity.fresh-object": 8, "A.history.step-before-object-existed": 2,
+FLOORS = {"quick": {"A.load-vs-model": 100, "A.listing": 15, "A.history": 30, "A.history-by-location": 15, "A.merge": 15, "A.split": 12, "A.split.first-listed-not-earliest-cycle": 2, "A.history.selection-none": 3, "A.history.selection-all-by-default": 5, "A.rewrite-refused": 15, "A.identity.fresh-object": 8, "A.history.step-before-object-existed": 2,
                     "A.history-by-location.below-assembly-level": 8, "A.history.unset-value-expected": 100, "A.history.never-assigned-parameter": 50, "A.twin-load-at-write": 50,
                     "A.write-context-exit.exception": 12, "A.write-context-exit.clean": 12,
                     "B.run-with-failure": 40, "B.run-complete": 1, "B.snapshot-compared": 100, "hook:Database.writeToDB": 200,
                     "B.restart-complete": 1, "B.restart-with-failure": 1, "B.restart.merged-group-compared": 6, "hook:DatabaseInterface.prepRestartRun": 2},
-          "thorough": {"A.load-vs-model": 1500, "A.listing": 200, "A.history": 400, "A.history-by-location": 200, "A.merge": 200, "A.split": 150, "A.split.first-listed-not-earliest-cycle": 15, "A.rewrite-refused": 200, "A.identity.fresh-object": 120, "A.history.step-before-object-existed": 30,
+          "thorough": {"A.load-vs-model": 1500, "A.listing": 200, "A.history": 400, "A.history-by-location": 200, "A.merge": 200, "A.split": 150, "A.split.first-listed-not-earliest-cycle": 15, "A.history.selection-none": 30, "A.history.selection-all-by-default": 50, "A.rewrite-refused": 200, "A.identity.fresh-object": 120, "A.history.step-before-object-existed": 30,
                        "A.history-by-location.below-assembly-level": 100, "A.history.unset-value-expected": 1000, "A.history.never-assigned-parameter": 500, "A.twin-load-at-write": 600,
                        "A.write-context-exit.exception": 160, "A.write-context-exit.clean": 160,
                        "B.run-with-failure": 250, "B.run-complete": 6, "B.snapshot-compared": 1200, "hook:Database.writeToDB": 3000,
@@ -354,6 +354,12 @@ def history_case(rec, rng, nevents, case):
                 if not steps_all:
                     continue
                 steps = rng.sample(steps_all, rng.randint(1, len(steps_all)))
+                sel = "some"
+                u_ = rng.random()
+                if u_ < .10:
+                    steps, sel = [], "none"  # an explicitly empty selection (what is left when a caller strips the current step): no stored step
+                elif u_ < .20:
+                    steps, sel = list(steps_all), "all-by-default"  # no selection given: every stored step
                 byloc = kind == "history-loc"
                 if byloc and rng.random() < .4:
                     comps = rng.sample(list(r.core), min(len(r.core), 2))
@@ -367,12 +373,16 @@ def history_case(rec, rng, nevents, case):
                 rec.hit("A.history-by-location" if byloc else "A.history")
                 if byloc and type(comps[0]).__name__ == "HexBlock":
                     rec.hit("A.history-by-location.below-assembly-level")
-                hist = (db.getHistoriesByLocation if byloc else db.getHistories)(comps, params, list(steps))
+                lab_steps = {(k[0], k[1]) for k in model if k[2]}
+                rec.hit("A.history.selection-" + sel)
+                hist = (db.getHistoriesByLocation if byloc else db.getHistories)(comps, params, None if sel == "all-by-default" else list(steps))
                 for comp in comps:
                     tname = type(comp).__name__
                     for p in params:
                         got = hist[comp][p]
                         for st in steps:
+                            if sel == "all-by-default" and st in lab_steps:
+                                continue  # a labelled state point of that cycle and node is listed under the same key: which one wins is not stated
                             if byloc:
                                 ser = places[st].get((tname, where(comp)))
                                 if ser is None:
@@ -399,7 +409,7 @@ def history_case(rec, rng, nevents, case):
                                 rec.violation("A/history-value-differs/%s%s" % ("by-location" if byloc else "by-identity", "/unset-on-this-object" if exp is None else ""),
                                               "history of %s(serial %d).%s at step %s = %r, state at that write had %r" % (tname, ser, p, st, g, exp), dict(w, steps=steps))
                                 break
-                        extra = [s for s in got if s not in steps and s != now]
+                        extra = [s for s in got if s not in steps and s != now and not (sel == "all-by-default" and s in lab_steps)]
                         if extra:
                             rec.violation("A/history-extra-steps", "history returned steps %s that were not requested" % extra, dict(w, steps=steps))
                 log.append("%s:%d steps" % (kind, len(steps)))
